@@ -286,6 +286,21 @@ pub fn combo_configs(quick: bool) -> Vec<Config> {
             }
         }
     }
+    // one member carries the whole weight (every value 1..=200 and a few large ones), the partner none: a
+    // member on every stream, the extreme words included; the zero-weight error is not admissible
+    for w in (1u32..=200).chain([1009, 65_537, (1 << 24) + 1, (1u32 << 31) + 1, 3_000_000_019, u32::MAX]) {
+        for (name, wv) in [("Pair", vec![w, 0]), ("Pair", vec![0, w])] {
+            let p = WeightedPair::new(Weighted::new(Best, wv[0]), Weighted::new(Random, wv[1])).unwrap();
+            let (admits, member_ok) = combo_oracles(2, wv.clone());
+            out.push(Config { name: format!("{name}{wv:?}"), run: direct(p), admits, member_ok, alpha: AlphaKind::Ranges, extreme_pass: true });
+        }
+        if w >= 2 {
+            let wv = vec![w / 3 + 1, w - (w / 3 + 1), 0];
+            let p = Weighted::new(Best, wv[0]).with_item_and_weight(Random, wv[1]).with_item_and_weight(t2(), wv[2]).unwrap();
+            let (admits, member_ok) = combo_oracles(3, wv.clone());
+            out.push(Config { name: format!("L3{wv:?}"), run: direct(p), admits, member_ok, alpha: AlphaKind::Ranges, extreme_pass: true });
+        }
+    }
     // the dynamic list
     for k in 1..=3usize {
         for wv in all_value_vectors(k, &ws) {
